@@ -65,6 +65,16 @@ def asSet (l : List Nat) : List Nat := dedupSorted (l.mergeSort (· ≤ ·))
 
 def showNats (l : List Nat) : String := ",".intercalate (l.map toString)
 
+/-- `g` is reached by invoke dispatch only.  If some conversion in a reported function has `g` in its
+method set under a name the conversion's interface lists (or the interface is empty), `findInterfaceCallees`
+should have reported it: the MakeInterface mechanism itself is broken.  Otherwise it is the widening gap. -/
+def dispatchReason (P : Prog) (R : List Nat) (g : Nat) : String :=
+  let applied := R.any fun f' => (fnAt P f').instrs.any fun ins' =>
+    match ins'.conv with
+    | some m => (ifaceCallees P m).contains g
+    | none => false
+  if applied then "MakeInterface-not-applied" else "widening"
+
 /-- why is `g` (executed according to `Exec`, not reported) missing: the unvisited operand position, or the
 interface widening, through which a reported function reaches it; functions only reachable through other
 missing functions inherit the reason. -/
@@ -74,7 +84,7 @@ def directReason (T : Tables) (P : Prog) (R : List Nat) (g : Nat) : Option Strin
     match fn.instrs.findSome? (fun ins => ins.ops.findSome? fun o =>
         if o.2 == VRef.fn g && !T.instrOps.contains (ins.kind, o.1) then some (ins.kind ++ "." ++ o.1) else none) with
     | some r => some r
-    | none => if (dispatch P R f).contains g then some "widening" else
+    | none => if (dispatch P R f).contains g then some (dispatchReason P R g) else
               if (funcRefs fn).contains g then some "unexplained-ref" else none
 
 /-- one round of attribution: direct causes from reported functions, else the reason of an already
